@@ -281,6 +281,13 @@ class Gen:
         elif r < 0.35:
             tail += ' throw()'
             fn.throw = V()
+        if tmpl is not None and tail == '' and not trailing and rng.random() < 0.3:
+            # a trailing requires-clause (only on templates, in place of an exception specification): any clause shape in
+            # front of any ending -- ';', a body, `= delete`
+            c = self.requires_clause()
+            fn.raw_requires = V(*c)
+            tail = ' requires ' + ' '.join(c)
+            self.kinds.add('trailing requires clause')
         if trailing:
             b, ls = decl.layers(rt)
             head = ' '.join(specs + ['auto', name]) + '(' + ptxt + ')' + tail + ' -> ' + ' '.join(decl.print_decl(rt, None))
@@ -521,12 +528,33 @@ class Gen:
                 txt.append('template <typename> class' + (' ' + pn if pn else ''))
         td = T.TemplateDecl(params=ps)
         text = 'template <' + ', '.join(txt) + '> '
-        if fn_only and rng.random() < 0.12:
+        if fn_only and rng.random() < 0.15:
             self.kinds.add('requires clause')
-            c = rng.choice([['C', '<', 'T', '>'], ['(', 'sizeof', '(', 'T', ')', '>', '1', ')'], ['Addable', '<', 'T', '>', '||', 'Sub', '<', 'T', '>']])
+            c = self.requires_clause()
             td.raw_requires_pre = V(*c)
             text += 'requires ' + ' '.join(c) + ' '
         return td, text
+
+    REQ_PRIMARIES = [['C', '<', 'T', '>'], ['(', 'sizeof', '(', 'T', ')', '>', '1', ')'], ['Addable', '<', 'T', '>'], ['(', 'B', '<', 'T', '>', ')'],
+                     ['is_small', '<', 'T', ',', '4', '>'], ['(', 'A', '<', 'T', '>', '&&', 'B', '<', 'T', '>', ')'], ['K'],
+                     ['decltype', '(', 'x', ')', '::', 'value'], ['(', 'a', ',', 'b', ')']]
+
+    def requires_clause(self):
+        """a constraint-logical-or-expression of the forms the parser documents: primaries (a parenthesized expression or a
+        possibly specialized name) joined by && / ||, or `requires (...) {...}`.  Names are unqualified here: F29 (the '::'
+        inside a name is dropped from the value) is a known finding with its own witness."""
+        rng = self.rng
+        if rng.random() < 0.12:
+            return ['requires', '(', 'T', 't', ')', '{', 't', '.', 'x', ';', '}']
+        c = list(rng.choice(self.REQ_PRIMARIES))
+        if c[0] == 'decltype':
+            c = ['K']       # (a qualified name: F29)
+        for _ in range(rng.choice([0, 0, 1, 1, 2])):
+            nxt = list(rng.choice(self.REQ_PRIMARIES))
+            if nxt[0] == 'decltype':
+                nxt = ['K']
+            c += [rng.choice(['&&', '||'])] + nxt
+        return c
 
     def templated(self, ns):
         r = self.rng.random()
